@@ -14,6 +14,7 @@ of re-processing it is arbitrary.
 -/
 import Nebula.Lemmas.HsManagerStep
 import Nebula.Model.HsNet
+import Nebula.Lemmas.HsCompose
 
 namespace Nebula.Props.C10
 open Nebula.HsManager Nebula.Lemmas.HsManager
@@ -124,6 +125,24 @@ theorem reframed_first_message_is_the_same_replay (w : Nebula.HsNet.Net) (j r c 
   unfold Nebula.HsNet.Net.step Nebula.HsNet.Net.resolve
   simp only [hj, if_true, hp]
   rcases hc with e | e <;> simp [e]
+
+/-- Composition with the Machine model (C05): in the composed system a replayed first message is handed to a
+fresh responder Machine like any other, but what that Machine makes of it does not matter — whatever the noise
+library, cert.Recombine, the trust check, the index allocator and the clock answer (`call`, `mc`, `v` arbitrary),
+the main hostmap is unchanged as soon as a tunnel created from this very message is still held for the first
+address of whatever certificate the Machine reports (for a byte-identical replay: the same certificate as the
+first time). A Machine error or an unusable Result changes nothing either. -/
+theorem replay_no_new_composed (info : Machine.CertId → Nebula.HsCompose.CertInfo) (s : Nebula.HsCompose.Sys)
+    (via : UNode) (pkt : Handle) (rv now : Nat) (mc : Machine.Cfg) (v : Nat) (call : Machine.Ev)
+    (held : ∀ c : Completed, ∃ t, (s.node.main.getList (c.certAddrs.headD 0)).find? (fun t => t.pkt0 == some pkt) = some t) :
+    (s.step info (.recv1 via pkt rv now mc v call)).node.main = s.node.main := by
+  simp only [Nebula.HsCompose.Sys.step, Nebula.HsCompose.Sys.feed, Node.step]
+  generalize Nebula.HsCompose.stage1Res info (Machine.stepEv mc { myVersion := v } call).2 = res
+  cases res with
+  | none => rfl
+  | some c =>
+    obtain ⟨t, ht⟩ := held c
+    exact (replay_no_new s.node via pkt c rv now t ht).1
 
 -- non-vacuity: establish, replay (state unchanged, original reply resent), then rotate and replay the first again
 def cfg0 : Cfg := { node := 1, myAddrs := [2], hasV1 := false, hasV2 := true, retries := 3, interval := 100000000 }
